@@ -77,6 +77,8 @@ CAs == [ ca1 |-> [name |-> "ca-one", sha |-> "sha1"],
 \* pb: unsafe network; pc: same name as pa, two addresses (v4+v6), other CA with the same CA name
 \* pd: no groups, an address outside my networks (10.9.0.5) and an unsafe network
 \* pe: first (lowest) address outside my networks, second inside; unsafe network covering the outside address
+\* pf: one address outside my networks whose certified prefix (/16) contains my network (simple-case candidate that is not)
+\* pg: an address inside my network and one outside it whose certified prefix (/16) contains my network
 Peers == [ pa |-> [name |-> "host-a", groups |-> {"g1", "g2"},       ca |-> "ca1",
                    nets |-> {Net(<<10, 0, 0, 2>>, 24)}, unsafe |-> {}],
            pb |-> [name |-> "host-b", groups |-> {"g1"},             ca |-> "ca2",
@@ -86,8 +88,12 @@ Peers == [ pa |-> [name |-> "host-a", groups |-> {"g1", "g2"},       ca |-> "ca1
            pd |-> [name |-> "host-d", groups |-> {},                 ca |-> "ca1",
                    nets |-> {Net(<<10, 0, 0, 5>>, 24), Net(<<10, 9, 0, 5>>, 24)}, unsafe |-> {Net(<<172, 16, 0, 0>>, 16)}],
            pe |-> [name |-> "host-e", groups |-> {"g3"},             ca |-> "ca2",
-                   nets |-> {Net(<<9, 9, 9, 6>>, 24), Net(<<10, 0, 0, 6>>, 24)}, unsafe |-> {Net(<<9, 9, 0, 0>>, 16)}] ]
-PeerIds == <<"pa", "pb", "pc", "pd", "pe">>
+                   nets |-> {Net(<<9, 9, 9, 6>>, 24), Net(<<10, 0, 0, 6>>, 24)}, unsafe |-> {Net(<<9, 9, 0, 0>>, 16)}],
+           pf |-> [name |-> "host-f", groups |-> {"g1"},             ca |-> "ca1",
+                   nets |-> {Net(<<10, 0, 1, 7>>, 16)}, unsafe |-> {}],
+           pg |-> [name |-> "host-g", groups |-> {"g2"},             ca |-> "ca2",
+                   nets |-> {Net(<<10, 0, 0, 8>>, 24), Net(<<10, 0, 1, 8>>, 16)}, unsafe |-> {}] ]
+PeerIds == <<"pa", "pb", "pc", "pd", "pe", "pf", "pg">>
 PeerCA(p) == CAs[Peers[p].ca]
 
 \* node-side address classes
@@ -97,10 +103,12 @@ LAddr == [ vpn |-> <<10, 0, 0, 1>>, vpn6 |-> V6(1), unsafe |-> <<192, 168, 0, 77
 \* peer-side address classes; <<>> = the peer has no such address
 RAddr(p, cls) ==
     CASE cls = "vpn"    -> (CASE p = "pa" -> <<10, 0, 0, 2>> [] p = "pb" -> <<10, 0, 0, 3>> [] p = "pc" -> <<10, 0, 0, 4>>
-                              [] p = "pd" -> <<10, 0, 0, 5>> [] p = "pe" -> <<10, 0, 0, 6>>)
+                              [] p = "pd" -> <<10, 0, 0, 5>> [] p = "pe" -> <<10, 0, 0, 6>> [] p = "pg" -> <<10, 0, 0, 8>>
+                              [] OTHER -> <<>>)
       [] cls = "vpn6"   -> (IF p = "pc" THEN V6(4) ELSE <<>>)
       [] cls = "unsafe" -> (IF p \in {"pb", "pd"} THEN <<172, 16, 5, 5>> ELSE IF p = "pe" THEN <<9, 9, 1, 1>> ELSE <<>>)
-      [] cls = "vpnout" -> (IF p = "pd" THEN <<10, 9, 0, 5>> ELSE IF p = "pe" THEN <<9, 9, 9, 6>> ELSE <<>>)
+      [] cls = "vpnout" -> (CASE p = "pd" -> <<10, 9, 0, 5>> [] p = "pe" -> <<9, 9, 9, 6>> [] p = "pf" -> <<10, 0, 1, 7>>
+                              [] p = "pg" -> <<10, 0, 1, 8>> [] OTHER -> <<>>)
       [] cls = "ext"    -> <<8, 8, 4, 4>>
       [] cls = "innet"  -> <<10, 0, 0, 99>>      \* inside my network, nobody's certified address
       [] cls = "me"     -> <<10, 0, 0, 1>>
